@@ -304,14 +304,20 @@ Section Lock.
   Notation hon := (honestb P).
   Notation cfg := (pcfg P).
   Variables (V n : Z) (j : justification) (mv : view).
+  (* the proposal: its payload (None for a forced re-proposal), the hash voted for, and what the
+     justification implies *)
+  Variables (po : option Z) (hh : Z) (oh : option Z).
   Hypothesis Hjv : justification_view (E := unit) true j = Ok mv.
   Hypothesis Hmv : vnum mv = V.
   Hypothesis Hjver : justification_verify (p_g P) (p_e P) (p_C P) j = Ok tt.
-  Hypothesis Himp : get_implied_block (E := unit) true (p_C P) (p_first P) j = Ok (n, None).
+  Hypothesis Himp : get_implied_block (E := unit) true (p_C P) (p_first P) j = Ok (n, oh).
+  Hypothesis Hkind :
+    (oh = None /\ po = Some hh /\ p_pok P n hh = true /\ p_psize P hh <= p_maxpay P) \/
+    (oh = Some hh /\ po = None).
   Hypothesis Hfn : p_first P <= n.
   Notation L := (cleader (cfg 0) V).
-  Notation cstar := {| cview := mv; cprop := {| hnum := n; hpay := pay n |} |}.
-  Notation mstar := {| m_key := L; m_sig_ok := true; m_msg := MProposal (Some (pay n)) j |}.
+  Notation cstar := {| cview := mv; cprop := {| hnum := n; hpay := hh |} |}.
+  Notation mstar := {| m_key := L; m_sig_ok := true; m_msg := MProposal po j |}.
 
   (* the frozen network relative to which forged signatures are excluded, and what is known
      of its certificates *)
@@ -322,7 +328,7 @@ Section Lock.
   Definition uniq_prop : Prop :=
     forall m p' j' mv', In m Sg -> m_msg m = MProposal p' j' -> m_key m = L -> m_sig_ok m = true ->
       justification_view (E := unit) true j' = Ok mv' -> vnum mv' = V ->
-      justification_verify (p_g P) (p_e P) (p_C P) j' = Ok tt -> p' = Some (pay n) /\ j' = j.
+      justification_verify (p_g P) (p_e P) (p_C P) j' = Ok tt -> p' = po /\ j' = j.
 
   Lemma just_lt j' : kj hon Sg j' -> justification_verify (p_g P) (p_e P) (p_C P) j' = Ok tt -> just_vnum j' < V.
   Proof.
@@ -336,8 +342,9 @@ Section Lock.
   Proof. intros H. apply justification_view_chk in H. destruct j'; exact H. Qed.
 
   Definition votemsg (k : Z) : sgmsg := {| m_key := k; m_sig_ok := true; m_msg := MCommit cstar |}.
+  Definition cached (s : rstate) : Prop := cache_has (r_cache s) n hh = true.
   Definition voted (soup : list sgmsg) (k : Z) (s : rstate) : Prop :=
-    r_phase s = PCommit /\ r_high_vote s = Some cstar /\ cache_has (r_cache s) n (pay n) = true /\
+    r_phase s = PCommit /\ r_high_vote s = Some cstar /\ (oh = None -> cached s) /\
     In (votemsg k) soup.
   Definition nodeA (soup : list sgmsg) (k : Z) (s : rstate) : Prop :=
     r_view s = V /\ n <= r_store_next s /\ r_store_first s = p_first P /\
@@ -348,32 +355,38 @@ Section Lock.
   Proof.
     intros (F1&F2&F3&F4&F7&F8) Hi (A1&A2&A3&A4). split; [congruence|]. split; [lia|]. split; [congruence|].
     destruct A4 as [A4|(B1&B2&B3&B4)]; [left; congruence|right].
-    split; [congruence|]. split; [congruence|]. split; [rewrite F4; exact B3|auto].
+    split; [congruence|]. split; [congruence|]. split; [unfold cached; rewrite F4; exact B3|auto].
   Qed.
+
+  (* the state in which the vote is cast: the payload of a new block is cached first *)
+  Definition s1_of (s : rstate) : rstate :=
+    match oh with None => set_cache s (cache_insert (r_cache s) n hh) | Some _ => s end.
 
   (* the proposal of the leader is accepted by a node waiting in the view *)
   Lemma star_accept k s : r_view s = V -> r_phase s = Prepare -> n <= r_store_next s ->
     r_store_first s = p_first P ->
     rstep_t (cfg k) s (IMsg mstar) =
       hbind (process_justification (cfg k)
-               (set_high_vote (set_phase (set_view (set_cache s (cache_insert (r_cache s) n (pay n))) (vnum mv)) PCommit)
-                  (Some cstar)) j)
+               (set_high_vote (set_phase (set_view (s1_of s) (vnum mv)) PCommit) (Some cstar)) j)
         (fun s _ => hbind (backup_state (cfg k) s) (fun s _ => hemit s (ESend (MCommit cstar)))).
   Proof.
     intros Hv Hp Hn Hf.
-    assert (E : on_proposal (cfg k) s L true (Some (pay n)) j =
+    assert (Eold : ((vnum mv <? r_view s) || ((vnum mv =? r_view s) && negb (phase_eqb (r_phase s) Prepare))) = false)
+      by (rewrite Hmv, Hv, Hp; rewrite Z.ltb_irrefl, Z.eqb_refl; reflexivity).
+    assert (E : on_proposal (cfg k) s L true po j =
       hbind (process_justification (cfg k)
-               (set_high_vote (set_phase (set_view (set_cache s (cache_insert (r_cache s) n (pay n))) (vnum mv)) PCommit)
-                  (Some cstar)) j)
+               (set_high_vote (set_phase (set_view (s1_of s) (vnum mv)) PCommit) (Some cstar)) j)
         (fun s _ => hbind (backup_state (cfg k) s) (fun s _ => hemit s (ESend (MCommit cstar))))).
-    { destruct Henv as (Hpok & Hsz & _).
-      apply on_proposal_accepts; cbn [cchk cg ce cC cfirst cmaxpay cpsize cpok pcfg]; auto.
-      - rewrite Hmv, Hv, Hp. rewrite Z.ltb_irrefl, Z.eqb_refl. reflexivity.
-      - rewrite Hmv. reflexivity.
-      - apply Z.ltb_ge. lia.
-      - apply Z.ltb_ge. apply Hsz.
-      - apply andb_false_iff. right. apply negb_false_iff. apply Z.ltb_lt. lia.
-      - apply andb_true_iff. split; [apply Z.leb_le; exact Hfn|apply Hpok]. }
+    { unfold s1_of. destruct Hkind as [(-> & -> & Hpok & Hsz)|(-> & ->)].
+      - apply on_proposal_accepts; cbn [cchk cg ce cC cfirst cmaxpay cpsize cpok pcfg]; auto.
+        + rewrite Hmv. reflexivity.
+        + apply Z.ltb_ge. lia.
+        + apply Z.ltb_ge. exact Hsz.
+        + apply andb_false_iff. right. apply negb_false_iff. apply Z.ltb_lt. lia.
+        + apply andb_true_iff. split; [apply Z.leb_le; exact Hfn|exact Hpok].
+      - apply on_proposal_accepts_re; cbn [cchk cg ce cC cfirst pcfg]; auto.
+        + rewrite Hmv. reflexivity.
+        + apply Z.ltb_ge. lia. }
     unfold rstep_t. cbn [rstep m_msg m_key m_sig_ok]. rewrite E.
     match goal with |- context [hbind (process_justification ?c ?s2 j) ?f] =>
       pose proof (vote_tail_res c s2 j cstar) as Hres; cbv zeta in Hres;
@@ -386,7 +399,7 @@ Section Lock.
   (* a proposal for a view >= V that passes the handler's checks is the leader's *)
   Lemma prop_pre_star k s m p' j' mv' : r_view s = V -> In m Sg -> kj hon Sg j' ->
     m_msg m = MProposal p' j' -> prop_pre (cfg k) s (m_key m) (m_sig_ok m) j' mv' ->
-    r_phase s = Prepare /\ p' = Some (pay n) /\ j' = j /\ mv' = mv.
+    r_phase s = Prepare /\ p' = po /\ j' = j /\ mv' = mv.
   Proof.
     intros Hv Hin Hkm Em (Ejv & Eold & Ekey & Esg & Ever).
     cbn [cchk cg ce cC pcfg] in *.
@@ -404,7 +417,7 @@ Section Lock.
     voted soup k s -> voted soup' k s'.
   Proof.
     intros (F1&F2&F3&F4&F7&F8) Hi (B1&B2&B3&B4).
-    split; [congruence|]. split; [congruence|]. split; [rewrite F4; exact B3|auto].
+    split; [congruence|]. split; [congruence|]. split; [unfold cached; rewrite F4; exact B3|auto].
   Qed.
 
   Lemma stepA k s m soup s' es r :
@@ -414,7 +427,8 @@ Section Lock.
     nodeA (soup ++ sends_of k es) k s' /\
     (m = mstar -> voted (soup ++ sends_of k es) k s') /\
     (forall x, In (ESend x) es -> x = MCommit cstar) /\
-    (voted soup k s -> voted (soup ++ sends_of k es) k s').
+    (voted soup k s -> voted (soup ++ sends_of k es) k s') /\
+    (cached s -> cached s').
   Proof.
     intros Hinv Es Hs Hle Hin Hkm HA.
     pose proof (rstep_t_le (cfg k) s (IMsg m) eq_refl) as (Hmono & _).
@@ -424,18 +438,20 @@ Section Lock.
     assert (Hquiet : forall s2, frame0 s s2 -> s' = s2 -> no_sends es ->
               nodeA (soup ++ sends_of k es) k s' /\
               ((forall x, In (ESend x) es -> x = MCommit cstar) /\
-               (voted soup k s -> voted (soup ++ sends_of k es) k s'))).
-    { intros s2 F -> Hq. split; [|split].
+               (voted soup k s -> voted (soup ++ sends_of k es) k s') /\
+               (cached s -> cached s'))).
+    { intros s2 F -> Hq. split; [|split; [|split]].
       - rewrite (sends_of_quiet k es Hq), app_nil_r. exact (nodeA_frame soup soup k s s2 F (fun m H => H) HA).
       - intros x Hx. unfold no_sends in Hq. rewrite Forall_forall in Hq. destruct (Hq _ Hx).
-      - rewrite (sends_of_quiet k es Hq), app_nil_r. exact (voted_frame soup soup k s s2 F (fun m H => H)). }
+      - rewrite (sends_of_quiet k es Hq), app_nil_r. exact (voted_frame soup soup k s s2 F (fun m H => H)).
+      - destruct F as (_&_&_&F4&_). unfold cached. rewrite F4. auto. }
     destruct (m_msg m) as [p' j'|c|t|j'] eqn:Em.
     - (* a proposal *)
       destruct (rstep_t_proposal (cfg k) s m p' j' Em) as
-        [(r0 & E & Hr0)|[(mv' & n' & Hpre & Himp' & Hcond)|(mv' & n' & oh & s1 & hash & Hpre & Himp' & Hbr & E)]].
+        [(r0 & E & Hr0)|[(mv' & n' & Hpre & Himp' & Hcond)|(mv' & n' & oh0 & s1 & hash & Hpre & Himp' & Hbr & E)]].
       + (* rejected *)
         rewrite E in Es. inversion Es; subst s' es r. cbn [sends_of flat_map]. rewrite app_nil_r.
-        split; [exact HA|]. split; [|split; [intros x []|auto]].
+        split; [exact HA|]. split; [|split; [intros x []|split; auto]].
         intros ->. destruct A4 as [A4|A4]; [|exact A4]. exfalso.
         rewrite (star_accept k s A1 A4 A2 A3) in E.
         match type of E with ?x = _ => pose proof (f_equal snd E) as E2 end. cbn [snd] in E2.
@@ -446,28 +462,40 @@ Section Lock.
       + (* missed deadline: impossible *)
         exfalso. destruct (prop_pre_star k s m p' j' mv' A1 Hin Hkm Em Hpre) as (_ & _ & -> & _).
         cbn [cchk cC cfirst pcfg] in Himp'. rewrite Himp in Himp'. inversion Himp'; subst n'.
+        destruct Hkind as [(_ & _ & _ & _)|(Eoh & _)]; [|congruence].
         apply andb_true_iff in Hcond. destruct Hcond as [_ Hc]. apply negb_true_iff in Hc. apply Z.ltb_ge in Hc. lia.
       + (* accepted: it is the leader's proposal *)
         destruct (prop_pre_star k s m p' j' mv' A1 Hin Hkm Em Hpre) as (Hph & -> & -> & ->).
-        cbn [cchk cC cfirst pcfg] in Himp'. rewrite Himp in Himp'. inversion Himp'; subst n' oh.
-        destruct Hbr as [(Hbad & _)|(_ & Eh & ->)]; [discriminate Hbad|]. inversion Eh; subst hash.
+        cbn [cchk cC cfirst pcfg] in Himp'. rewrite Himp in Himp'. inversion Himp' as [[En' Eoh']]. subst n'.
+        assert (Ehash : hash = hh /\ s1 = s1_of s).
+        { unfold s1_of. destruct Hkind as [(E1 & E2 & _)|(E1 & E2)]; rewrite E1 in *; subst oh0.
+          - destruct Hbr as [(Hbad & _)|(_ & Eh & ->)]; [discriminate Hbad|]. rewrite E2 in Eh. inversion Eh. auto.
+          - destruct Hbr as [(Eh & _ & ->)|(Hbad & _)]; [|discriminate Hbad]. inversion Eh. auto. }
+        destruct Ehash as [-> ->].
         rewrite E in Es.
         match type of Es with hbind (process_justification ?c ?s2 j) ?f = _ =>
           pose proof (vote_tail_post c s2 j cstar) as Hpost; cbv zeta in Hpost; rewrite Es in Hpost end.
         unfold st_of in Hpost. cbn [fst snd] in Hpost.
         destruct (Hpost Hs) as ((F1&F2&F3&F4&_&_&F7&F8) & _ & (qs & Hqs & Ees) & _).
-        cbn [set_high_vote set_phase set_view set_cache r_view r_phase r_high_vote r_cache r_store_first r_store_next] in *.
+        cbn [set_high_vote set_phase set_view r_view r_phase r_high_vote r_cache r_store_first r_store_next] in *.
+        assert (Hc1 : (oh = None -> cached (s1_of s)) /\ (cached s -> cached (s1_of s)) /\
+                      r_store_first (s1_of s) = r_store_first s /\ r_store_next (s1_of s) = r_store_next s).
+        { unfold s1_of, cached. destruct oh; cbn [set_cache r_cache r_store_first r_store_next].
+          - split; [discriminate|auto].
+          - split; [intros _; apply cache_has_insert|]. split; [intros _; apply cache_has_insert|auto]. }
+        destruct Hc1 as (Hc1 & Hc2 & Hc3 & Hc4).
         assert (Hsends : sends_of k es = [votemsg k]).
         { rewrite Ees. unfold sends_of. rewrite flat_map_app. fold (sends_of k qs). rewrite (sends_of_quiet k qs Hqs). reflexivity. }
         assert (Hvoted : voted (soup ++ sends_of k es) k s').
-        { split; [exact F2|]. split; [exact F3|]. split; [rewrite F4; apply cache_has_insert|].
+        { split; [exact F2|]. split; [exact F3|]. split; [intros Eo; unfold cached; rewrite F4; apply Hc1; exact Eo|].
           rewrite Hsends. apply in_or_app. right. left. reflexivity. }
-        split; [|split; [intros _; exact Hvoted|split; [|intros _; exact Hvoted]]].
+        split; [|split; [intros _; exact Hvoted|split; [|split; [intros _; exact Hvoted|]]]].
         * split; [lia|]. split; [lia|]. split; [congruence|right; exact Hvoted].
         * intros x Hx. rewrite Ees in Hx. apply in_app_or in Hx. destruct Hx as [Hx|[Hx|[Hx|[]]]].
           -- unfold no_sends in Hqs. rewrite Forall_forall in Hqs. destruct (Hqs _ Hx).
           -- discriminate.
           -- inversion Hx. reflexivity.
+        * intros Hc. unfold cached. rewrite F4. apply Hc2. exact Hc.
     - (* a commit vote *)
       rewrite rstep_t_other in Es by (intros ? ?; rewrite Em; discriminate). cbn [rstep] in Es. rewrite Em in Es.
       assert (Hs' : stopsA (snd (on_commit (cfg k) s (m_key m) (m_sig_ok m) c)) = false) by (rewrite Es; exact Hs).
@@ -498,7 +526,7 @@ Section Lock.
   Notation W := (cweights (p_C P)).
   Definition done (s : rstate) : Prop := V < r_view s /\ n < r_store_next s.
   Definition coll (k : Z) (s : rstate) : Prop :=
-    r_view s = V /\ r_phase s <> Prepare /\ cache_has (r_cache s) n (pay n) = true /\ n <= r_store_next s /\
+    r_view s = V /\ r_phase s <> Prepare /\ True /\ n <= r_store_next s /\
     (forall q, r_high_cqc s = Some q -> vnum (cview (qmsg q)) < V) /\
     (forall h, hon h = true -> RC.fresh (r_commit_views s) h V \/ hasbit (cfg k) s h cstar) /\
     (forall q, qc_at (r_commit_qcs s) V cstar = Some q -> weight W (qsigners q) < quorum (p_C P)).
@@ -508,7 +536,7 @@ Section Lock.
     coll k s -> coll k s' /\ (forall h, hasbit (cfg k) s h cstar -> hasbit (cfg k) s' h cstar).
   Proof.
     intros (F1&F2&F3&F4&F5&F6&F7&F8) Hq (C1&C2&C3&C4&C5&C6&C7). split.
-    - split; [congruence|]. split; [congruence|]. split; [rewrite F4; exact C3|]. split; [lia|]. split; [exact Hq|].
+    - split; [congruence|]. split; [congruence|]. split; [exact I|]. split; [lia|]. split; [exact Hq|].
       split; [|rewrite F6; exact C7].
       intros h Hh. destruct (C6 h Hh) as [H|H]; [left; rewrite F5; exact H|right].
       unfold hasbit in *. rewrite F5, F6. exact H.
@@ -538,13 +566,10 @@ Section Lock.
   Qed.
 
   (* the step on which the commit quorum is reached *)
-  Definition entered (k : Z) (s' : rstate) (es : list effect) : Prop :=
-    r_view s' = V + 1 /\ r_phase s' = Prepare /\ n < r_store_next s' /\
+  Definition entered (k : Z) (s s' : rstate) (es : list effect) : Prop :=
+    r_view s' = V + 1 /\ r_phase s' = Prepare /\ (n <= r_store_next s' /\ (cached s -> n < r_store_next s')) /\
     exists q j' qs, r_high_cqc s' = Some q /\ qmsg q = cstar /\ get_justification s' = Ok j' /\ only_queue qs /\
       es = qs ++ [ENotifyProposer j'; EPersist (backup (cfg k) s'); ESend (MNewView j')].
-
-  Lemma entered_done k s' es : entered k s' es -> done s'.
-  Proof. intros (A & _ & B & _). split; [lia|exact B]. Qed.
 
   Lemma stepB k s m s' es r :
     RC.cache_inv (cfg k) s -> rstep_t (cfg k) s (IMsg m) = (s', es, r) -> stopsA r = false ->
@@ -553,10 +578,10 @@ Section Lock.
     (forall tq, r_high_tqc s' = Some tq -> vnum (tqview tq) < V) ->
     (forall q, r_high_cqc s' = Some q -> V <= vnum (cview (qmsg q)) -> qmsg q = cstar) ->
     coll k s ->
-    entered k s' es \/
+    entered k s s' es \/
     (coll k s' /\ only_queue es /\
      (forall h, hon h = true -> hasbit (cfg k) s h cstar -> hasbit (cfg k) s' h cstar) /\
-     (forall h, hon h = true -> m = votemsg h -> hasbit (cfg k) s' h cstar)).
+     (forall h, hon h = true -> m = votemsg h -> hasbit (cfg k) s' h cstar) /\ r_cache s' = r_cache s).
   Proof.
     intros Hinv Es Hs Hkm HGA Hptq Hpcq HC.
     pose proof HC as (C1&C2&C3&C4&C5&C6&C7).
@@ -564,9 +589,9 @@ Section Lock.
     - (* proposals are rejected: the node is not waiting for one *)
       cbn [kmsg] in Hkm.
       destruct (rstep_t_proposal (cfg k) s m p' j' Em) as
-        [(r0 & E & Hr0)|[(mv' & n' & Hpre & _)|(mv' & n' & oh & s1 & hash & Hpre & _)]].
+        [(r0 & E & Hr0)|[(mv' & n' & Hpre & _)|(mv' & n' & oh0 & s1 & hash & Hpre & _)]].
       + rewrite E in Es. inversion Es; subst s' es r. right. split; [exact HC|]. split; [constructor|]. split; [auto|].
-        intros h _ ->. discriminate Em.
+        split; [|reflexivity]. intros h _ ->. discriminate Em.
       + exfalso. apply C2. exact (prop_pre_phase k s _ _ j' mv' C1 Hkm Hpre).
       + exfalso. apply C2. exact (prop_pre_phase k s _ _ j' mv' C1 Hkm Hpre).
     - (* a commit vote *)
@@ -575,10 +600,10 @@ Section Lock.
                 RC.fresh (r_commit_views s) (m_key m) (vnum (cview c)) -> m_sig_ok m = true ->
                 (vnum (cview c) <? r_view s) = false ->
                 RC.on_commit_accept (cfg k) s (m_key m) c i0 = (s', es, r) ->
-                entered k s' es \/
+                entered k s s' es \/
                 (coll k s' /\ only_queue es /\
                  (forall h, hon h = true -> hasbit (cfg k) s h cstar -> hasbit (cfg k) s' h cstar) /\
-                 (forall h, hon h = true -> m = votemsg h -> hasbit (cfg k) s' h cstar))).
+                 (forall h, hon h = true -> m = votemsg h -> hasbit (cfg k) s' h cstar) /\ r_cache s' = r_cache s)).
       { intros i0 Hk Hf Hsg Hold E.
         destruct Hinv as [Hcinv _].
         pose proof (RC.q0_facts _ _ (p_C P) (r_commit_views s) _ _ c (m_key m) i0
@@ -591,7 +616,7 @@ Section Lock.
           set (s' := set_commit_caches s (commit_views' s (m_key m) c) (commit_qcs' (cfg k) s (m_key m) c i0)).
           assert (Hown : hon (m_key m) = true -> hasbit (cfg k) s' (m_key m) cstar).
           { intros Hh. rewrite <- (Hstar Hh). apply upd_hasbit_own; [exact Hk|apply (TqcAssembly.cindex_lt _ _ _ Hk)|apply Hq0i]. }
-          right. split; [|split; [constructor|split]].
+          right. split; [|split; [constructor|split; [|split; [|reflexivity]]]].
           + split; [exact C1|]. split; [exact C2|]. split; [exact C3|]. split; [exact C4|]. split; [exact C5|]. split.
             * intros h Hh. destruct (Z.eq_dec h (m_key m)) as [->|Hne]; [right; apply Hown; exact Hh|].
               destruct (C6 h Hh) as [H|H].
@@ -623,13 +648,18 @@ Section Lock.
             transitivity (qmsg (commit_q (cfg k) s (m_key m) c i0)); [symmetry; exact Hqm|].
             apply (Hpcq _ Hq'). rewrite Hqm. exact HVc. }
           subst c. cbn [cview cprop hnum hpay] in *. rewrite Hmv in Hv'.
-          split; [exact Hv'|]. split; [exact Hph|]. split; [apply Hst; exact C3|].
+          split; [exact Hv'|]. split; [exact Hph|]. split; [split; [|intros Hc; apply Hst; exact Hc]|].
+          { destruct (on_commit_accept_high (cfg k) s (m_key m) cstar i0 eq_refl Ew Hold Hs2) as (_ & _ & Hsn). cbv zeta in Hsn.
+            rewrite E in Hsn. unfold st_of at 1 in Hsn. cbn [fst] in Hsn. rewrite Hsn.
+            match goal with |- _ <= r_store_next (st_of (process_commit_qc ?c ?s2 ?q)) =>
+              destruct (process_commit_qc_frame c s2 q) as ((_&_&_&_&_&_&_&F8) & _) end.
+            cbn [set_commit_caches r_store_next] in F8. lia. }
           eexists (commit_q (cfg k) s (m_key m) cstar i0), j1, _. split; [exact Hq'|]. split; [exact Hq0m|].
           split; [exact Hj1|]. split; [exact Hoq|exact Hes]. }
       destruct (on_commit_cases (cfg k) s (m_key m) (m_sig_ok m) c Hinv)
         as [(r0 & E & Hr0)|(i0 & Hk & Hold & Hf & Hsg & Hver & E)].
       + rewrite E in Es. inversion Es; subst s' es r.
-        right. split; [exact HC|]. split; [constructor|]. split; [auto|].
+        right. split; [exact HC|]. split; [constructor|]. split; [auto|]. split; [|reflexivity].
         intros h Hh Em'. destruct (C6 h Hh) as [Hf|Hb]; [|exact Hb]. exfalso.
         assert (Ek : m_key m = h) by (rewrite Em'; reflexivity).
         assert (Esg : m_sig_ok m = true) by (rewrite Em'; reflexivity).
@@ -651,7 +681,8 @@ Section Lock.
       destruct (timeout_step (cfg k) s (m_key m) (m_sig_ok m) t Hinv eq_refl Hs') as [(F & Ee & Hq)|(tq & Htq0 & Hle)];
         rewrite Es in *; unfold st_of in *; cbn [fst snd] in *.
       + right. destruct (coll_frame k s s' F) as [H1 H2]; [rewrite Hq; exact C5|exact HC|].
-        split; [exact H1|]. split; [rewrite Ee; constructor|]. split; [intros h _; apply H2|]. intros h _ ->. discriminate Em.
+        split; [exact H1|]. split; [rewrite Ee; constructor|]. split; [intros h _; apply H2|].
+        split; [intros h _ ->; discriminate Em|apply F].
       + exfalso. specialize (Hptq tq Htq0). lia.
     - (* a new-view message: its certificates are old *)
       rewrite rstep_t_other in Es by (intros ? ?; rewrite Em; discriminate). cbn [rstep] in Es. rewrite Em in Es.
@@ -663,7 +694,7 @@ Section Lock.
       pose proof (new_view_low (cfg k) s (m_key m) (m_sig_ok m) j' Hlow) as Hv'.
       destruct (new_view_same_view (cfg k) s (m_key m) (m_sig_ok m) j' Hv') as [(r0 & E & _)|(Ever & F & Hoq & Hq)].
       + rewrite E in Es. inversion Es; subst s' es r. right. split; [exact HC|]. split; [constructor|]. split; [auto|].
-        intros h _ ->. discriminate Em.
+        split; [|reflexivity]. intros h _ ->. discriminate Em.
       + rewrite Es in F, Hq, Hoq. unfold st_of in F, Hq. cbn [fst snd] in F, Hq, Hoq. right.
         destruct (coll_frame k s s' F) as [H1 H2]; [|exact HC|].
         * intros q Hq'. destruct Hq as [Hq|(q2 & Hj & Hq)].
@@ -673,7 +704,8 @@ Section Lock.
              destruct j' as [q0|t0]; cbn [just_hq gj] in *.
              ++ inversion Hj; subst q0. apply Hcq. exact Hg.
              ++ apply Hcq. exact (gt_high_qc (cfg 0) hon Sg t0 q Hg Hj).
-        * split; [exact H1|]. split; [exact Hoq|]. split; [intros h _; apply H2|]. intros h _ ->. discriminate Em.
+        * split; [exact H1|]. split; [exact Hoq|]. split; [intros h _; apply H2|].
+          split; [intros h _ ->; discriminate Em|apply F].
   Qed.
 
   (* a node that is past view V is not moved by anything on the old network unless its view changes *)
@@ -693,7 +725,7 @@ Section Lock.
         pose proof (just_lt j' Hkm Ever). pose proof (jview_num j' mv' Ejv).
         apply orb_false_iff in Eold. destruct Eold as [E1 _]. apply Z.ltb_ge in E1. lia. }
       destruct (rstep_t_proposal (cfg k) s m p' j' Em) as
-        [(r0 & E & Hr0)|[(mv' & n' & Hpre & _)|(mv' & n' & oh & s1 & hash & Hpre & _)]].
+        [(r0 & E & Hr0)|[(mv' & n' & Hpre & _)|(mv' & n' & oh0 & s1 & hash & Hpre & _)]].
       + rewrite E in Es. inversion Es; subst. split; [apply frame_frame0, frame_refl|constructor].
       + exfalso. exact (Hno mv' Hpre).
       + exfalso. exact (Hno mv' Hpre).
